@@ -63,6 +63,38 @@ def _single_defs(fn):
     return out
 
 
+def _touched_before(fn, name, loop):
+    """A slice bound to `name` is a fresh list; it can only have changed by
+    the time `loop` runs if it was stored into, had a method called on it or
+    was handed to a call in a statement that precedes the loop in the
+    source."""
+    if loop is None:
+        return True
+    lim = getattr(loop, "lineno", 0)
+    for n in ast.walk(fn):
+        if getattr(n, "lineno", lim) >= lim and not (
+                isinstance(n, (ast.For, ast.While)) and n is not loop and any(
+                    x is loop for x in ast.walk(n))):
+            continue
+        if isinstance(n, ast.Call) and any(
+                isinstance(a, ast.Name) and a.id == name or (
+                    isinstance(a, ast.Starred) and isinstance(
+                        a.value, ast.Name) and a.value.id == name)
+                for a in n.args):
+            return True
+        if isinstance(n, ast.Attribute) and isinstance(
+                n.value, ast.Name) and n.value.id == name:
+            return True
+        if isinstance(n, ast.Subscript) and isinstance(
+                n.ctx, (ast.Store, ast.Del)) and isinstance(
+                    n.value, ast.Name) and n.value.id == name:
+            return True
+        if isinstance(n, ast.AugAssign) and isinstance(
+                n.target, ast.Name) and n.target.id == name:
+            return True
+    return False
+
+
 def _mutated(fn, name):
     """Is the object bound to `name` possibly changed or aliased?  Only
     loads as loop iterables / call arguments of zip/enumerate / `**name` /
@@ -115,6 +147,8 @@ class _SubstNames(ast.NodeTransformer):
 
 
 # ---------------------------------------------------------------------------
+CURRENT_LOOP = [None]
+SEQ_LEN = [None]          # ast of a sequence -> its fixed length or None
 TABLE_RESOLVER = [None]   # module-level displays: Name -> ast or None
 RANGES = [0]     # > 0: constant range(a, b) loops up to that size unroll too
 
@@ -135,6 +169,24 @@ def _rows(it, defs, fn):
         return list(it.elts)
     if isinstance(it, ast.Name) and it.id in defs and isinstance(
             defs[it.id], (ast.Tuple, ast.List)) and not _mutated(fn, it.id):
+        return _rows(defs[it.id], defs, fn)
+    if SEQ_LEN[0] is not None and isinstance(it, ast.Subscript) and \
+            isinstance(it.slice, ast.Slice) and it.slice.step is None:
+        # a constant slice of a sequence of known length: its items
+        n = SEQ_LEN[0](it.value)
+        lo = it.slice.lower.value if isinstance(
+            it.slice.lower, ast.Constant) else (
+                0 if it.slice.lower is None else None)
+        hi = it.slice.upper.value if isinstance(
+            it.slice.upper, ast.Constant) else (
+                n if it.slice.upper is None else None)
+        if n is not None and type(lo) is int and type(hi) is int and \
+                0 <= lo <= hi <= n and hi - lo <= MAX_ROWS:
+            return [ast.Subscript(acopy(it.value), ast.Constant(k),
+                                  ast.Load()) for k in range(lo, hi)]
+    if SEQ_LEN[0] is not None and isinstance(it, ast.Name) and \
+            it.id in defs and isinstance(defs[it.id], ast.Subscript) and \
+            not _touched_before(fn, it.id, CURRENT_LOOP[0]):
         return _rows(defs[it.id], defs, fn)
     if isinstance(it, ast.Name) and TABLE_RESOLVER[0] is not None and \
             it.id not in _stores(fn):
@@ -269,7 +321,11 @@ def unroll_const_loops(fn):
         if loop.orelse or _has(loop.body, (ast.Break,)):
             return None
         defs = _single_defs(fn)
-        rows = _rows(loop.iter, defs, fn)
+        CURRENT_LOOP[0] = loop
+        try:
+            rows = _rows(loop.iter, defs, fn)
+        finally:
+            CURRENT_LOOP[0] = None
         if rows is None or len(rows) > MAX_ROWS:
             return None
         tnames = {n.id for n in ast.walk(loop.target)
